@@ -181,11 +181,11 @@ Proof. exact validate_accepts_created_scalar. Qed.
 Print Assumptions C02_validate_accepts_created.
 
 (* For ALL names (lists of code points): the sanitised name is non-empty and none of its code points is below 32
-   (so no NUL / control character), slash (47), backslash (92) or one of < > : double-quote | ? star. *)
+   (so no NUL / C0 control character), outside 127..159 (DEL and the C1 controls), slash (47), backslash (92) or one of < > : double-quote | ? star. *)
 Theorem C02_sanitize_safe : forall name : list N,
   sanitize name <> [] /\
   forall c, In c (sanitize name) ->
-    (32 <= c /\ c <> 47 /\ c <> 92 /\ c <> 60 /\ c <> 62 /\ c <> 58 /\ c <> 34 /\ c <> 124 /\ c <> 63 /\ c <> 42)%N.
+    (32 <= c /\ c <> 47 /\ c <> 92 /\ c <> 60 /\ c <> 62 /\ c <> 58 /\ c <> 34 /\ c <> 124 /\ c <> 63 /\ c <> 42 /\ (c < 127 \/ 159 < c))%N.
 Proof. exact sanitize_safe_chars. Qed.
 Print Assumptions C02_sanitize_safe.
 
@@ -196,9 +196,33 @@ Print Assumptions C02_sanitize_safe.
 Theorem C02_save_name_safe : forall sugg n : list N,
   suggested_save_name sugg = Some n \/ save_file_name sugg = Some n ->
   n <> [] /\ forall c, In c n ->
-    (32 <= c /\ c <> 47 /\ c <> 92 /\ c <> 60 /\ c <> 62 /\ c <> 58 /\ c <> 34 /\ c <> 124 /\ c <> 63 /\ c <> 42)%N.
+    (32 <= c /\ c <> 47 /\ c <> 92 /\ c <> 60 /\ c <> 62 /\ c <> 58 /\ c <> 34 /\ c <> 124 /\ c <> 63 /\ c <> 42 /\ (c < 127 \/ 159 < c))%N.
 Proof. exact save_names_safe_chars. Qed.
 Print Assumptions C02_save_name_safe.
+
+(* A save that is cancelled (stop_tasks, stop, delete, second save_file, shutdown) at any point before it completed
+   -- after k-1 of the n blob writes, k <= n, or after the last write but before the bookkeeping -- leaves NO file;
+   only a save that ran to completion leaves one, and then it is the published file: never a truncated prefix. *)
+Theorem C02_cancelled_save : forall (maxb : nat) (f : bytes) (k : nat), (2 <= maxb)%nat ->
+  (save_loop [] (split maxb f) k = None /\ (k <= length (split maxb f))%nat) \/
+  (save_loop [] (split maxb f) k = Some f /\ (length (split maxb f) < k)%nat).
+Proof. exact cancelled_save. Qed.
+Print Assumptions C02_cancelled_save.
+
+(* A range request 'bytes=start-' (skip start/(maxb-1) blobs, drop start mod (maxb-1) bytes of the next one) serves
+   the file from offset start, for every file and every start. *)
+Theorem C02_range_read : forall (maxb : nat) (f : bytes) (start : nat), (2 <= maxb)%nat ->
+  range_read maxb (split maxb f) start = skipn start f.
+Proof. exact range_read_correct. Qed.
+Print Assumptions C02_range_read.
+
+(* The file name stored for a stream recovered from the database (sanitize of the basename) is safe for ANY
+   suggested name a descriptor may carry. *)
+Theorem C02_recovered_name_safe : forall sugg : list N,
+  recovered_file_name sugg <> [] /\ forall c, In c (recovered_file_name sugg) ->
+    (32 <= c /\ c <> 47 /\ c <> 92 /\ c <> 60 /\ c <> 62 /\ c <> 58 /\ c <> 34 /\ c <> 124 /\ c <> 63 /\ c <> 42 /\ (c < 127 \/ 159 < c))%N.
+Proof. exact recovered_name_safe. Qed.
+Print Assumptions C02_recovered_name_safe.
 
 (* ---- non-vacuity: concrete instances (H = identity padded is not needed: structural facts only) ---- *)
 Example C02_ex_split : split 4 (bytes_of_Ns [1; 2; 3; 4; 5; 6; 7]%N) =
@@ -264,4 +288,13 @@ Example C02_ex_foreign_name : suggested_save_name [32; 46; 46; 47; 46; 46; 47; 1
   Some [46; 46; 46; 46; 120; 113; 46; 109; 112; 52]%N.
 Proof. vm_compute. reflexivity. Qed.
 Example C02_ex_blank_name : suggested_save_name [32; 133; 9]%N = None.
+Proof. vm_compute. reflexivity. Qed.
+(* the range formula before the repair (start / (maxb - 2) blobs skipped) serves wrong bytes: maxb = 4, start = 2 *)
+Example C02_ex_range_old_refuted : range_read_old 4 (split 4 ex_file) 2 = bytes_of_Ns [6; 7]%N.
+Proof. vm_compute. reflexivity. Qed.
+Example C02_ex_range_new : range_read 4 (split 4 ex_file) 2 = bytes_of_Ns [3; 4; 5; 6; 7]%N.
+Proof. vm_compute. reflexivity. Qed.
+Example C02_ex_cancel_mid : save_loop [] (split 4 ex_file) 3 = None.
+Proof. vm_compute. reflexivity. Qed.
+Example C02_ex_cancel_late : save_loop [] (split 4 ex_file) 4 = Some ex_file.
 Proof. vm_compute. reflexivity. Qed.
